@@ -440,6 +440,11 @@ impl Disk
         // first see if there is enough room for it, if not we abort
         let data_blocks = fimg.chunks.len();
         let block_ptr_slots = fimg.end();
+        // the extent number has 11 bits: beyond 2048 logical extents it would wrap around to an extent that is already there
+        if block_ptr_slots > 2048 * types::LOGICAL_EXTENT_SIZE / self.dpb.block_size() {
+            error!("file would extend beyond the last extent number");
+            return Err(Box::new(Error::DiskFull));
+        }
         let slots_per_extent = self.dpb.extent_capacity() / self.dpb.block_size();
         let mut max_extents_needed = block_ptr_slots / slots_per_extent;
         if block_ptr_slots % slots_per_extent > 0 {
